@@ -1,5 +1,7 @@
 import PrysmVerif.Generated.C17
 import PrysmVerif.Lemmas.C17Film
+import PrysmVerif.Lemmas.C17Passive
+import PrysmVerif.Lemmas.C17Absorb
 import Mathlib.Analysis.SpecialFunctions.Trigonometric.Basic
 /-!
 # C17 — thin-film and Fresnel coefficients conserve energy and agree with each other
@@ -317,6 +319,72 @@ theorem energy_conservation_p (ls : List Layer) (h : ∀ l ∈ ls, l.ok) (n0 c0 
   simp only [Model.C17.rtot, Model.C17.ttot, ofInt_eq, Int.cast_one]
   exact rt_of_energy _ _ _ (by positivity) (amatP_energy m hm n0 c0 ne ce (by positivity))
 
+/-! ## absorbing layers: `R + T ≤ 1`  (the [stretch] item of the design — proved in full) -/
+
+/-- an absorbing (or lossless) layer: complex index `n`, complex `cos θ`, scaled thickness `κ = 2π d / λ` -/
+structure AbsLayer where
+  n : ℂ
+  ct : ℂ
+  κ : ℝ
+
+/-- thickness `≥ 0`, `Im n² ≥ 0` (absorbing, not amplifying), `cos θ` from Snell's law with the real invariant
+`σ = n₀ sin θ₀` -/
+def AbsLayer.ok (l : AbsLayer) (σ : ℝ) : Prop :=
+  0 ≤ l.κ ∧ l.n ≠ 0 ∧ l.ct ≠ 0 ∧ 0 ≤ (l.n ^ 2).im ∧ l.ct ^ 2 = 1 - ((σ : ℂ) / l.n) ^ 2
+
+/-- the phase thickness the code computes is `κ · (n cos θ)` with `κ = 2π d / λ` -/
+theorem beta_eq_kappa {K : Type} [Field K] (pi lam d n cost : K) :
+    betaS pi lam d n cost = (2 * pi * d / lam) * (n * cost) ∧ betaP pi lam d n cost = (2 * pi * d / lam) * (n * cost) := by
+  constructor <;> simp only [betaS, betaP, ofInt_eq] <;> push_cast <;> ring
+
+/-- the characteristic matrices the code builds for such layers (`sin`, `cos` are the complex functions) -/
+noncomputable def absLayersS (ls : List AbsLayer) : List (M22 ℂ) :=
+  ls.map fun l => charS (-I) (Complex.sin (l.κ * (l.n * l.ct))) (Complex.cos (l.κ * (l.n * l.ct))) l.ct l.n
+noncomputable def absLayersP (ls : List AbsLayer) : List (M22 ℂ) :=
+  ls.map fun l => charP (-I) (Complex.sin (l.κ * (l.n * l.ct))) (Complex.cos (l.κ * (l.n * l.ct))) l.ct l.n
+
+/-- every product of characteristic matrices of absorbing layers is passive: the power flow `Re (E H̄)` entering the
+front is at least the flow leaving the back — any number of layers, both polarisations -/
+theorem absorbing_passive (ls : List AbsLayer) (σ : ℝ) (h : ∀ l ∈ ls, l.ok σ) :
+    Passive (prod (absLayersS ls)) ∧ Passive (prod (absLayersP ls)) := by
+  constructor <;> apply passive_prod <;> intro m hm
+  · obtain ⟨l, hl, rfl⟩ := List.mem_map.mp hm
+    obtain ⟨h1, h2, h3, h4, h5⟩ := h l hl
+    rw [gen_charS]
+    exact layerS_passive l.n l.ct l.κ h1 h2 h3 (snell_absorbing l.n l.ct σ h2 h4 h5).1
+  · obtain ⟨l, hl, rfl⟩ := List.mem_map.mp hm
+    obtain ⟨h1, h2, h3, h4, h5⟩ := h l hl
+    rw [gen_charP]
+    exact layerP_passive l.n l.ct l.κ h1 h2 h3 (snell_absorbing l.n l.ct σ h2 h4 h5).2 h4
+
+/-- `R + T ≤ 1` for every stack of absorbing layers between real media (s-polarisation) -/
+theorem absorbing_R_plus_T_le_one_s (ls : List AbsLayer) (σ : ℝ) (h : ∀ l ∈ ls, l.ok σ) (n0 c0 ne ce : ℝ)
+    (hn0 : 0 < n0) (hc0 : 0 < c0) (hne : 0 < ne) (hce : 0 < ce) :
+    normSq (rtot (amatS (n0 : ℂ) c0 (prod (absLayersS ls)) ne ce)) +
+      (ne * ce) / (n0 * c0) * normSq (ttot (amatS (n0 : ℂ) c0 (prod (absLayersS ls)) ne ce)) ≤ 1 := by
+  have hp := (absorbing_passive ls σ h).1 1 ((ne * ce : ℝ) : ℂ)
+  have hf : flux 1 ((ne * ce : ℝ) : ℂ) = ne * ce := by simp [flux_eq]
+  rw [gen_amatS, (gen_rtot_ttot _).1, (gen_rtot_ttot _).2]
+  simp only [Model.C17.rtot, Model.C17.ttot, ofInt_eq, Int.cast_one]
+  apply rt_le_of_energy _ _ _ (by positivity)
+  rw [amatS_flux _ n0 c0 ne ce (by positivity)]
+  rw [hf] at hp
+  exact div_le_div_of_nonneg_right hp (by positivity)
+
+/-- `R + T ≤ 1` for every stack of absorbing layers between real media (p-polarisation) -/
+theorem absorbing_R_plus_T_le_one_p (ls : List AbsLayer) (σ : ℝ) (h : ∀ l ∈ ls, l.ok σ) (n0 c0 ne ce : ℝ)
+    (hn0 : 0 < n0) (hc0 : 0 < c0) (hne : 0 < ne) (hce : 0 < ce) :
+    normSq (rtot (amatP (n0 : ℂ) c0 (prod (absLayersP ls)) ne ce)) +
+      (ne * ce) / (n0 * c0) * normSq (ttot (amatP (n0 : ℂ) c0 (prod (absLayersP ls)) ne ce)) ≤ 1 := by
+  have hp := (absorbing_passive ls σ h).2 (ce : ℂ) (ne : ℂ)
+  have hf : flux (ce : ℂ) (ne : ℂ) = ne * ce := by simp [flux_eq]; ring
+  rw [gen_amatP, (gen_rtot_ttot _).1, (gen_rtot_ttot _).2]
+  simp only [Model.C17.rtot, Model.C17.ttot, ofInt_eq, Int.cast_one]
+  apply rt_le_of_energy _ _ _ (by positivity)
+  rw [amatP_flux _ n0 c0 ne ce (by positivity)]
+  rw [hf] at hp
+  exact div_le_div_of_nonneg_right hp (by positivity)
+
 /-! ## non-vacuity -/
 /-- the layer hypotheses are met by real angles and indices -/
 example (β θ n : ℝ) (hθ : Real.cos θ ≠ 0) (hn : n ≠ 0) : (Layer.mk (Real.sin β) (Real.cos β) (Real.cos θ) n).ok :=
@@ -324,6 +392,12 @@ example (β θ n : ℝ) (hθ : Real.cos θ ≠ 0) (hn : n ≠ 0) : (Layer.mk (Re
 example : (Layer.mk (3 / 5) (4 / 5) (12 / 13) (3 / 2)).ok := by
   refine ⟨by norm_num, by norm_num, by norm_num⟩
 example : ((-I : ℂ)) ^ 2 = -1 := by simp
+/-- an absorbing layer at normal incidence (`σ = 0`): `n = 2 + i`, `cos θ = 1`, `κ = 3` -/
+example : (AbsLayer.mk (2 + I) 1 3).ok 0 := by
+  refine ⟨by norm_num, ?_, by norm_num, ?_, by simp⟩
+  · intro h; have := congrArg Complex.re h; simp at this
+  · have : ((2 + I : ℂ) ^ 2).im = 4 := by simp [pow_two, Complex.add_im, Complex.mul_im]; norm_num
+    rw [this]; norm_num
 /-- Brewster hypotheses at `n₀ = 1`, `n₁ = 4/3`: `tan θ₀ = 4/3` (`cos θ₀ = 3/5`), refraction at `cos θ₁ = 4/5` -/
 example : fresnelRp (1 : ℝ) (4 / 3) (3 / 5) (4 / 5) = 0 :=
   brewster_zero 1 (4 / 3) (3 / 5) (4 / 5) (4 / 5) (3 / 5) (by norm_num) (by norm_num) (by norm_num) (by norm_num)
